@@ -88,19 +88,49 @@ def snapshot_defaults(defaults):
     return out
 
 
-def new_enforcer(box, variant, enforce_new, defaults=None, overwrite=True, warn=False, nreg=None, dup_dirs=False, absent_first=False):
+ORIG_OPTION_DEFAULTS = {}
+
+
+def restore_option_defaults():
+    """the library's option objects are process-global: routes that change their defaults put them back"""
+    from oslo_policy import opts
+    for o in opts._options:
+        if o.name in ORIG_OPTION_DEFAULTS:
+            o.default, o._set_location = ORIG_OPTION_DEFAULTS[o.name]      # (value and where oslo.config says it was set)
+
+
+def new_enforcer(box, variant, enforce_new, defaults=None, overwrite=True, warn=False, nreg=None, dup_dirs=False, absent_first=False, route='override', dr=False):
+    """``route``: how the configuration reaches the enforcer - 'override' (policy_file argument, options
+    overridden), 'set_defaults' (ONE opts.set_defaults call naming the policy file and the other options, no
+    policy_file argument) or 'discover' (nothing configured: the main file is a policy.json found in the
+    configuration directory by the documented fallback)"""
     from oslo_config import cfg
-    from oslo_policy import policy
+    from oslo_policy import opts, policy
+    if not ORIG_OPTION_DEFAULTS:
+        ORIG_OPTION_DEFAULTS.update({o.name: (o.default, o._set_location) for o in opts._options})
     conf = cfg.ConfigOpts()
-    conf([], project='verif', default_config_files=[], default_config_dirs=[])
-    e = policy.Enforcer(conf, policy_file=box.path('main'), overwrite=overwrite)
+    if dr:
+        # a default rule: undefined names are decided by the registered helper policy hlp (role:dflt)
+        opts._register(conf)
+        conf.set_override('policy_default_rule', 'hlp', group='oslo_policy')
     dirs = box.dirs()
     if dup_dirs:
         dirs = [dirs[0], dirs[1], dirs[0], dirs[2]]
     if absent_first:
         dirs = [dirs[2], dirs[0], dirs[1]]
-    conf.set_override('policy_dirs', dirs, group='oslo_policy')
-    conf.set_override('enforce_new_defaults', bool(enforce_new), group='oslo_policy')
+    if route == 'discover':
+        conf(['--config-dir', box.root], project='verif', default_config_files=[])
+        e = policy.Enforcer(conf, overwrite=overwrite)
+    elif route == 'set_defaults':
+        conf([], project='verif', default_config_files=[], default_config_dirs=[])
+        opts.set_defaults(conf, box.path('main'), enforce_new_defaults=bool(enforce_new), policy_dirs=dirs)
+        e = policy.Enforcer(conf, overwrite=overwrite)
+    else:
+        conf([], project='verif', default_config_files=[], default_config_dirs=[])
+        e = policy.Enforcer(conf, policy_file=box.path('main'), overwrite=overwrite)
+    if route != 'set_defaults':
+        conf.set_override('policy_dirs', dirs, group='oslo_policy')
+        conf.set_override('enforce_new_defaults', bool(enforce_new), group='oslo_policy')
     e.suppress_deprecation_warnings = not warn
     dl = defaults if defaults is not None else defaults_for(variant)
     e.register_defaults([policy.RuleDefault('hlp', 'role:dflt'), policy.RuleDefault('HLP', 'role:old')])
@@ -123,7 +153,10 @@ def decisions(e, roles, via='enforce'):
                 if e.enforce(_checks.RuleCheck('rule', n), {}, {'roles': [r]}):
                     ok.append(r)
             else:
-                chk = e.rules.get(n)
+                try:
+                    chk = e.rules[n]            # (an undefined name looks up the default rule, if one is usable)
+                except KeyError:
+                    chk = None
                 if chk is not None and chk({}, {'roles': [r]}, e):
                     ok.append(r)
         out[n] = ok
@@ -155,8 +188,17 @@ class Live:
     """one long-lived enforcer with its own files, driven along a history"""
 
     def __init__(self, rng, variant, enforce_new, defaults=None, via='enforce', overwrite=True, warn=None, box=None, late=False, dup_dirs=False,
-                 make_dirs=None, absent_first=False):
-        self.box = box if box is not None else fsbox.Box(rng, make_dirs=(rng.random() < 0.7) if make_dirs is None else make_dirs)
+                 make_dirs=None, absent_first=False, route='override', pre=(), dr=False):
+        self.route = route
+        self.dr = dr
+        if box is not None:
+            self.box = box
+        elif route == 'discover':
+            self.box = fsbox.Box(rng, main_name='policy.json', make_dirs=(rng.random() < 0.7) if make_dirs is None else make_dirs)
+        else:
+            self.box = fsbox.Box(rng, make_dirs=(rng.random() < 0.7) if make_dirs is None else make_dirs)
+        # file events that happen before the enforcer is constructed (recorded after the boot event)
+        pre_recs = [apply_fs(self.box, ev) for ev in pre]
         self.rng = rng
         self.own_box = box is None
         self.peers = [self]                 # every enforcer reading the same files records every file event
@@ -166,9 +208,15 @@ class Live:
         self.warn = (rng.random() < 0.5) if warn is None else warn
         self.dup_dirs = dup_dirs
         self.absent_first = absent_first
-        self.e = new_enforcer(self.box, variant, enforce_new, self.defaults, overwrite, warn=self.warn, nreg=0, dup_dirs=dup_dirs, absent_first=absent_first)
+        self.e = new_enforcer(self.box, variant, enforce_new, self.defaults, overwrite, warn=self.warn, nreg=0, dup_dirs=dup_dirs, absent_first=absent_first, route=route, dr=dr)
         self.roles = ['dflt', 'old', 'nobody', 'n'] + [f + '@fixed' for f in MUTABLE]
-        self.trace = [{'op': 'boot', 'de': 1 if self.box.make_dirs else 0}]
+        self.trace = [{'op': 'boot', 'de': 1 if self.box.make_dirs else 0, 'dr': 1 if dr else 0}]
+        for r in pre_recs:
+            if r is not None:
+                if r['op'] in ('write', 'ignored', 'replace'):
+                    self.roles.append(stamp(r['f'], r['t']))
+                    self.roles.append(stamp(r['f'], r['t']) + '#2')
+                self.trace.append(dict(r))
         self.last_print = None
         self.synced = False
         self.nreg = 0
@@ -203,7 +251,7 @@ class Live:
                 fresh_dec = None
                 if self.rng.random() < 0.4:
                     # the newly constructed enforcer may just as well read the files BEFORE the long-lived one
-                    fresh0 = new_enforcer(self.box, self.variant, getattr(self, 'enforce_new_now', self.enforce_new), self.defaults, self.overwrite, nreg=self.nreg, dup_dirs=self.dup_dirs, absent_first=self.absent_first)
+                    fresh0 = new_enforcer(self.box, self.variant, getattr(self, 'enforce_new_now', self.enforce_new), self.defaults, self.overwrite, nreg=self.nreg, dup_dirs=self.dup_dirs, absent_first=self.absent_first, route=self.route, dr=self.dr)
                     fresh_dec = decisions(fresh0, self.roles, 'enforce')
                     rec['_fresh_first'] = True
                 with _w.catch_warnings(record=True) as caught:
@@ -235,7 +283,7 @@ class Live:
                         if self.e.enforce(d.name, {}, {'roles': [r], 'system_scope': 'all'}):
                             rec['scopeblk'] = 0
                 if fresh_dec is None:
-                    fresh = new_enforcer(self.box, self.variant, getattr(self, 'enforce_new_now', self.enforce_new), self.defaults, self.overwrite, nreg=self.nreg, dup_dirs=self.dup_dirs, absent_first=self.absent_first)
+                    fresh = new_enforcer(self.box, self.variant, getattr(self, 'enforce_new_now', self.enforce_new), self.defaults, self.overwrite, nreg=self.nreg, dup_dirs=self.dup_dirs, absent_first=self.absent_first, route=self.route, dr=self.dr)
                     fresh_dec = decisions(fresh, self.roles, 'enforce')
                 rec['fresh'] = fresh_dec
                 if snapshot_defaults(self.defaults) != self.snap:
@@ -258,18 +306,21 @@ class Live:
         return r
 
     def close(self):
+        if self.route == 'set_defaults':
+            restore_option_defaults()
         if self.own_box:
             self.box.close()
 
 
-def run_history(rng, variant, enforce_new, history, via='enforce', defaults=None, overwrite=True, late=False, dup_dirs=False, absent_first=False):
+def run_history(rng, variant, enforce_new, history, via='enforce', defaults=None, overwrite=True, late=False, dup_dirs=False, absent_first=False,
+                route='override', pre=(), dr=False):
     """history: list of ('write', f, kind) / ('empty'|'touch'|'delete', f) /
     ('ignored', f) / ('load', force).  Returns the recorded trace."""
     # (a changed enforce_new_defaults option takes effect at the next rebuild of the rule store; without a main
     #  file and without any existing directory there is nothing to rebuild from - histories that change the
     #  option run with the directories in place)
     lv = Live(rng, variant, enforce_new, via=via, defaults=defaults, overwrite=overwrite, late=late, dup_dirs=dup_dirs, absent_first=absent_first,
-              make_dirs=True if any(op[0] == 'setopt' for op in history) else None)
+              make_dirs=True if any(op[0] == 'setopt' for op in history) else None, route=route, pre=pre, dr=dr)
     try:
         for ev in history:
             lv.step(ev)
